@@ -597,6 +597,44 @@ fn verify_family(ctx: &Ctx) {
     times.extend_from_slice(&[(0, 0, 0), (0, 300, 300), (0, 301, 300), (T48_MAX, T48_MAX, 65535), (T48_MAX, T48_MAX - 65536, 65535), (T48_MAX - 300, T48_MAX, 300), (T48_MAX - 301, T48_MAX, 300), (0, 100, 300), (400, 100, 300), (401, 100, 300), (T48_MAX, T48_MAX - 100, 300)]);
     times.sort();
     times.dedup();
+    let mut far_times: Vec<(u64, u64, u16)> = Vec::new();
+    {
+        let mut dists: Vec<u64> = Vec::new();
+        for k in 8..48u32 {
+            dists.push(1u64 << k);
+            for j in [16u32, 31, 32, 33] {
+                if j < k {
+                    dists.push((1u64 << k) + (1u64 << j));
+                }
+            }
+            dists.push((1u64 << k) * 3);
+        }
+        dists.push(1000u64 << 32);
+        dists.push(65535u64 << 32);
+        for f in [0u16, 300, 65535] {
+            for &d in &dists {
+                for off in [-(f as i64) - 1, -(f as i64), -1, 0, 1, (f as i64) / 2, f as i64, f as i64 + 1] {
+                    let dist = d as i64 + off;
+                    if dist < 0 || dist as u64 > T48_MAX {
+                        continue;
+                    }
+                    let dist = dist as u64;
+                    // now after / before the time signed, anchored at both
+                    // ends of the range and at NOW0 where it fits.
+                    far_times.push((dist, 0, f));
+                    far_times.push((0, dist, f));
+                    far_times.push((T48_MAX, T48_MAX - dist, f));
+                    if NOW0 + dist <= T48_MAX {
+                        far_times.push((NOW0 + dist, NOW0, f));
+                        far_times.push((NOW0, NOW0 + dist, f));
+                    }
+                }
+            }
+        }
+        far_times.sort();
+        far_times.dedup();
+    }
+    ctx.set_extra("far_skew_triples", json!(far_times.len()));
     let eo: Vec<(u16, Vec<u8>)> = vec![(0, vec![]), (18, rm::time48(NOW0 + 5).to_vec()), (16, vec![]), (0, vec![1, 2, 3])];
     let masks: Vec<u8> = if th { vec![0x01, 0x02, 0x04, 0x08, 0x10, 0x20, 0x40, 0x80, 0xff] } else { vec![0x01, 0x20, 0x80, 0xff] };
     let flip_nows: Vec<u64> = if th { vec![NOW0, NOW0 + 300, NOW0 + 301] } else { vec![NOW0] };
@@ -614,6 +652,16 @@ fn verify_family(ctx: &Ctx) {
                     record_verify(l, "truncation-window", &msg, &b.mode, &b.secret, now, || json!({"sub": "truncation-window", "base": vbase_json(b), "time_signed": ts, "fudge": fudge, "error": error, "other": hex(other), "mac_len": mac_len}));
                 }
             }
+        }
+        // (a') far skews: |now - time signed| at every power of two of the
+        // 48-bit range (and sums of two of them), +- the fudge and +- 1, in
+        // both directions — the window test at every width the difference
+        // can be computed in.
+        // (Quick tier: on the bases of the first two scripts only; the window
+        // test does not look at the message.)
+        for &(now, ts, fudge) in far_times.iter().filter(|_| th || b.script < 2) {
+            let msg = ref_sign(b, &twin, ts, fudge, 0x4321, 0, &[], full);
+            record_verify(l, "far-skew", &msg, &b.mode, &b.secret, now, || json!({"sub": "far-skew", "base": vbase_json(b), "time_signed": ts, "fudge": fudge}));
         }
         // (b) wrong key, wrong prior MAC.
         let msg = ref_sign(b, &twin, NOW0, 300, 0x4321, 0, &[], full);
@@ -737,7 +785,7 @@ fn finish(ctx: Ctx) -> ! {
     ctx.assume("oracle decisions: accept iff MAC length allowed (RFC 8945 §5.2.2.1) and MAC equals the prefix of the reference MAC and |now - time signed| <= fudge; error kind follows the RFC order length > MAC > time; a TSIG RR with CLASS != ANY or TTL != 0 whose MAC matches is undetermined");
     ctx.finish(
         "exploration",
-        "sign: {11 Writer scripts (no question, EDNS, compression off / case-preserving, 255-octet QNAME, 1.7 kB answer, ...)} x {3 key names incl. one compressible against the QNAME and a 255-octet one} x {Request, Response, Subsequent x 4 prior MACs, Unsigned x known/unknown algorithm} x {SHA-1, SHA-256} x {key lengths around the HMAC block size} x {original ID = / != ID} x {error 0,16,17,18} x {3 time/fudge/server-time triples incl. range ends} x {limit 65535, 512}: output decoded independently, TSIG RDATA fields and MAC compared with the harness's RFC 8945 section 4.3 computation, prefix compared with the TSIG-less message. verify: reference-signed messages over the same scripts x modes x algorithms x keys, with EVERY MAC length 0..full+1 x window-edge (now, time signed, fudge) triples x error/other-data variants, wrong key / prior MAC / mode, and EVERY single-octet XOR corruption (4 masks quick; 8 single bits + 0xff thorough) of the whole message incl. TSIG RR; verdict of ReadTsigRr::verify_* compared with an oracle that re-derives accept/reject and the error kind from the octets",
+        "sign: {11 Writer scripts (no question, EDNS, compression off / case-preserving, 255-octet QNAME, 1.7 kB answer, ...)} x {3 key names incl. one compressible against the QNAME and a 255-octet one} x {Request, Response, Subsequent x 4 prior MACs, Unsigned x known/unknown algorithm} x {SHA-1, SHA-256} x {key lengths around the HMAC block size} x {original ID = / != ID} x {error 0,16,17,18} x {3 time/fudge/server-time triples incl. range ends} x {limit 65535, 512}: output decoded independently, TSIG RDATA fields and MAC compared with the harness's RFC 8945 section 4.3 computation, prefix compared with the TSIG-less message. verify: reference-signed messages over the same scripts x modes x algorithms x keys, with EVERY MAC length 0..full+1 x window-edge (now, time signed, fudge) triples x error/other-data variants, far skews (every power of two of the 48-bit range and sums with 2^16/2^31/2^32/2^33, +- fudge, +- 1, both directions, anchored at 0, 2^48-1 and a present-day time), wrong key / prior MAC / mode, and EVERY single-octet XOR corruption (4 masks quick; 8 single bits + 0xff thorough) of the whole message incl. TSIG RR; verdict of ReadTsigRr::verify_* compared with an oracle that re-derives accept/reject and the error kind from the octets",
         true,
     )
 }
